@@ -157,3 +157,21 @@ Definition ikey_code (c : ikey_case) : N :=
   let ref_ok := match ref with Some kk => bytes_eqb kk fkey | None => false end in
   let lib_good := match lib_ok, lib_key with Some true, Some kk => bytes_eqb kk fkey | _, _ => false end in
   (if ref_ok then 0 else 4) + (if lib_good then 0 else 2).
+
+(** ** channel r6: one of many small revision-6 files from the harness's encryptor, opened by the
+    library with the user or the owner password: accepted, and the file key recovered (bit 2).
+    The encryptor's own Algorithm 2.B is judged by the reference on sampled cases only (channels
+    ikey and h2b) — an evaluation costs minutes here. *)
+Definition r6open_case := (bytes * option bool * option bytes)%type.
+Definition r6open_code (c : r6open_case) : N :=
+  let '(fkey, lib_ok, lib_key) := c in
+  match lib_ok, lib_key with
+  | Some true, Some kk => if bytes_eqb kk fkey then 0 else 2
+  | _, _ => 2
+  end.
+
+(** ** channel h2b: one Algorithm 2.B evaluation of the harness's encryptor (password, salt, u,
+    hash) chosen ON the stopping boundary (last byte = rounds - 32); bit 4 = harness defect *)
+Definition h2b_case := (bytes * bytes * bytes * bytes)%type.
+Definition h2b_code (c : h2b_case) : N :=
+  let '(pw, salt, u, h) := c in if bytes_eqb (alg2b pw salt u) h then 0 else 4.
